@@ -193,7 +193,7 @@ def classify_driver(res, prop):
                 res.violation({"property": prop, "module": "trace-driver", "why": "Resolver call %s through a long-lived resolver on live, renamed nodes violates %s (judged by TLC)" % (i, prop),
                                "event": byr[i]})
         return
-    qprops = {"nav": ("C04",), "common": ("C04",), "iters": ("C05", "C06"), "walk": ("C15",), "findall": ("C14",), "find": ("C14",)}
+    qprops = {"nav": ("C04",), "common": ("C04",), "iters": ("C05", "C06"), "walk": ("C15",), "findall": ("C14",), "find": ("C14",), "byattr": ("C14",)}
     mine = [q for q in out["queries"] if prop in qprops[q["query"]["q"]]]
     res.trace_events += len(mine)
     byq = {q["id"]: q for q in out["queries"]}
